@@ -283,6 +283,16 @@ int main() {
             printf(",\"gamma\":"); pnum(GetGamma(y));
             printf("}\n");
             free(y);
+        } else if (cmd == "shield") {
+            int specidx, method; double h2col, spcol, tgas;
+            in >> specidx >> h2col >> spcol >> tgas >> method;
+            printf("{\"ev\":\"shield\",\"value\":"); pnum(GetShieldingFactor(specidx, h2col, spcol, tgas, method)); printf("}\n");
+        } else if (cmd == "gscat") {
+            double av, wl; in >> av >> wl;
+            printf("{\"ev\":\"gscat\",\"value\":"); pnum(GetGrainScattering(av, wl)); printf("}\n");
+        } else if (cmd == "charwl") {
+            double h2col, cocol; in >> h2col >> cocol;
+            printf("{\"ev\":\"charwl\",\"value\":"); pnum(GetCharactWavelength(h2col, cocol)); printf("}\n");
         } else if (cmd == "consts") {
             printf("{\"ev\":\"consts\"");
 #define VERIF_CONST(c) printf(",\"" #c "\":"); pnum((double)c);
